@@ -457,8 +457,30 @@ def run_infinite(spec):
             require(bool(H2.is_hermitian()), 'infinite-is_hermitian', 'every term was added with plus_hc', **tags)
         e2 = H2.expectation_value(psi)
         require(abs(e2 - e_ref) <= 1e-7 * scale, 'infinite-expectation_value', 'max_range None: %r vs %r' % (e2, e_ref), exp=has_exp, unknown_range=True, **tags)
+        # hermiticity with an explicit window: is_hermitian(eps, max_range) / is_equal(other, eps, max_range) are documented to look at
+        # the terms inside range(L + 2 max_range).  Reference: the dense sum of all generated terms inside that window (every kind
+        # of term fits at least once, terms on different supports can not cancel each other).
+        R = H.max_range
+        cls_h = 'hermiticity-not-decided'
+        if R is not None and R < np.inf and not spec['explicit_plus_hc'] and d ** (N + 2 * int(R)) <= 4096:
+            n = N + 2 * int(R)
+            wsites = [site] * n
+            A = np.zeros((d ** n, d ** n), dtype=complex)
+            for sv, term in terms_in(0, n - 1):
+                A = A + sv * M.jw_term(wsites, [(o, i) for o, i in term])
+            nA = np.linalg.norm(A)
+            if nA > 1e-9:
+                defect = np.linalg.norm(A - A.conj().T) / nA
+                expected = True if defect < 1e-8 else (False if defect > 1e-3 else None)
+                if expected is not None:
+                    for name, val in [('is_hermitian()', H.is_hermitian()), ('unknown range: is_hermitian(max_range=R)', H2.is_hermitian(max_range=int(R))),
+                                      ('unknown range: is_equal(dagger, max_range=R)', H2.is_equal(H2.dagger(), max_range=int(R))),
+                                      ('is_hermitian(max_range=R+1)', H.is_hermitian(max_range=int(R) + 1))]:
+                        require(bool(val) == expected, 'infinite-hermiticity-window', '%s = %r, dense window of %d sites: relative defect %r' % (name, bool(val), n, defect),
+                                expected=expected, **tags)
+                    cls_h = 'hermitian' if expected else 'non-hermitian'
     return {'nontrivial': True, 'classes': ['via:' + spec['via'], 'exp' if has_exp else 'finite-range', 'superposition' if (spec['superpos'] and not charged) else 'basis-state'] +
-            (['explicit_plus_hc'] if spec['explicit_plus_hc'] else [])}
+            (['explicit_plus_hc'] if spec['explicit_plus_hc'] else []) + [cls_h]}
 
 
 SUBCHECKS.append(Sub('infinite', infinite_specs, run_infinite, quick=300, thorough=8000))
